@@ -88,12 +88,12 @@ class VD:
         return sum(f[3] for f in self.fields)
 
 
-def gen_schema(r, big=False):
+def gen_schema(r, big=False, one=False):
     used = set()
     if big:
         # few large fields: record of 30000..65535 bytes
-        nf = r.choice([1, 1, 2, 3])
-        total = r.randrange(30000, 65536)
+        nf = 1 if one else r.choice([1, 2, 2, 3])
+        total = r.randrange(60000, 65536) if one else r.randrange(30000, 65536)
         fields = []
         left = total
         for j in range(nf):
@@ -126,12 +126,12 @@ def gen_history(r, name, kind="std"):
     vds = {}
     mal = kind == "mal"
 
-    def create(v, big=False):
+    def create(v, big=False, one=False):
         d = VD()
         vds[v] = d
         L.append("new %d" % v)
         d.att = "w"
-        d.fields = gen_schema(r, big)
+        d.fields = gen_schema(r, big, one)
         if kind == "noil" and r.random() < 0.8 or (kind in ("std", "mal") and r.random() < 0.08):
             L.append("setil %d 1" % v)
             d.full = False
@@ -281,7 +281,7 @@ def gen_history(r, name, kind="std"):
         d.wl = False
 
     if kind == "big":
-        create(0, big=True)
+        create(0, big=True, one=name.endswith("0"))
         d = vds[0]
         need = 1000000 // d.rs + 1
         # need = the chunk size VSwrite picks; more than that many records go through the buffer in several pieces
